@@ -504,7 +504,8 @@ def native_checks(tier):
 
 def contracts(tier):
     from pyvc.interp import PyRaise  # noqa
-    cs = []
+    from . import c08
+    cs = list(c08.scanner_contracts(tier))
     for th in ('arithmetic', 'bv', 'datatypes', 'fp', 'strings'):
         cs.append(
             Contract(f'C04/mutators_{th}.is_relevant',
